@@ -12,7 +12,7 @@ ASSUMPTIONS = ["reference AES written from FIPS-197, self-tested against FIPS-19
 NSHARDS = {"quick": 16, "thorough": 32}
 BUDGET_S = {"quick": 200, "thorough": 1500}
 MIN_HITS = {
-    'quick': {"enc": 216, "dec": 216, "ctr_carry": 44, "bad_pad": 320, "bad_len": 84},
+    'quick': {"enc": 264, "dec": 264, "ctr_carry": 44, "bad_pad": 320, "bad_len": 84},
     'thorough': {"enc": 9196, "dec": 9196, "ctr_carry": 384, "bad_pad": 7680, "bad_len": 2016},
 }
 MODES = {"128cbc": 16, "256cbc": 32, "128ctr": 16, "256ctr": 32}
@@ -61,6 +61,43 @@ def cases(ctx):
                     continue
                 iv = ((r.getrandbits(64) << 64) | ((1 << 64) - nblocks)).to_bytes(16, "big")
                 yield {"k": "rt", "mode": mode, "key": gen.rbytes(r, MODES[mode]).hex(), "iv": iv.hex(), "msg": gen.rbytes(r, 16 * nblocks - tail).hex(), "carry": 9}
+    # degenerate but valid key / IV relations
+    for mode, kl in MODES.items():
+        for rel in ("key_eq_iv", "zero", "iv_eq_key_prefix", "ff"):
+            k += 1
+            if k % N != S:
+                continue
+            key = gen.rbytes(r, kl)
+            if rel == "key_eq_iv":
+                key = gen.rbytes(r, 16) * (kl // 16)
+                iv = key[:16]
+            elif rel == "zero":
+                key, iv = bytes(kl), bytes(16)
+            elif rel == "iv_eq_key_prefix":
+                iv = key[:16]
+            else:
+                key, iv = b"\xff" * kl, b"\xff" * 8 + bytes(8)
+            for L in (0, 1, 2, 16, 33):
+                yield {"k": "rt", "mode": mode, "key": key.hex(), "iv": iv.hex(), "msg": gen.rbytes(r, L).hex(), "rel": rel}
+    # CTR keystreams that START with zero bytes: the ciphertext of a short message equals the message (searched with the reference)
+    if S in (0, 1):
+        mode = ("128ctr", "256ctr")[S]
+        key = gen.rbytes(r, MODES[mode])
+        rk = aes.expand_key(key)
+        found1 = found2 = None
+        hi = r.getrandbits(64)
+        for c in range(1, 400000):
+            iv = ((hi << 64) | c).to_bytes(16, "big")
+            ks = aes.enc_block(rk, iv)
+            if ks[0] == 0 and found1 is None:
+                found1 = iv
+            if ks[0] == 0 and ks[1] == 0:
+                found2 = iv
+                break
+        for iv in (found1, found2):
+            if iv is not None:
+                for L in (1, 2, 3, 17):
+                    yield {"k": "rt", "mode": mode, "key": key.hex(), "iv": iv.hex(), "msg": gen.rbytes(r, L).hex(), "rel": "keystream_starts_with_zero"}
     # CBC rejection cases
     for mode in ("128cbc", "256cbc"):
         for L in (0, 1, 15, 16, 17, 31, 32, 47):
@@ -91,6 +128,8 @@ def judge(ctx, case):
         ctx.hit("mode_" + mode)
         if "carry" in case:
             ctx.hit("ctr_carry")
+        if "rel" in case:
+            ctx.hit("rel_" + case["rel"])
         if len(m) >= 4096:
             ctx.hit("len>=4096")
         r = ctx.call({"op": "aes", "mode": mode, "dir": "enc", "key": case["key"], "iv": case["iv"], "msg": case["msg"]})
